@@ -82,6 +82,12 @@ class SI:
             return SF(z3.fpMul(RNE, SF.lift(o), SF.lift(s)))
         return SI(SI.lift(o) * s.t)
 
+    def __lshift__(s, o): return SI(s.t << SI.lift(o))
+    def __rlshift__(s, o): return SI(SI.lift(o) << s.t)
+    def __rshift__(s, o): return SI(s.t >> SI.lift(o))
+    def __and__(s, o): return SI(s.t & SI.lift(o))
+    __rand__ = __and__
+    def __floordiv__(s, o): return SI(z3.If(s.t >= 0, z3.UDiv(s.t, SI.lift(o)), -z3.UDiv(-s.t + SI.lift(o) - 1, SI.lift(o)))) if isinstance(o, int) and o > 0 else NotImplemented
     def __truediv__(s, o): return SF(z3.fpDiv(RNE, SF.lift(s), SF.lift(o)))     # exact for |values| < 2^53 (asserted by the harness)
     def __rtruediv__(s, o): return SF(z3.fpDiv(RNE, SF.lift(o), SF.lift(s)))
     def __gt__(s, o): return engine.CUR.branch(s.t > SI.lift(o))
